@@ -14,6 +14,8 @@ sch=json.load(open('/root/.vp/EVIDENCE.schema.json'))
 for c in json.load(open('/verif/MANIFEST.json'))['checks']:
     e=json.load(open(c['evidence_file'])); jsonschema.validate(e,sch)
     cov=e['coverage']; assert cov['obligations']==cov['discharged'], (c['property_id'],cov['obligations'],cov['discharged'])
+    assert not cov.get('unreachable_return_sites'), (c['property_id'], cov.get('unreachable_return_sites'))
+    a,b=cov['covers_sat'].split('/'); assert a==b, (c['property_id'], cov['covers_sat'])
 jsonschema.validate(json.load(open('/verif/MANIFEST.json')),json.load(open('/root/.vp/MANIFEST.schema.json')))
 print('evidence + manifest valid')
 PY
